@@ -16,7 +16,7 @@
    for Python (hypotheses [reads_sound], [gen_covers] below); real thread scheduling and the GIL. *)
 From Coq Require Import List String Bool NArith Arith.
 From BU Require Import Gen.Objects Model.Memo Model.Objects.
-From BU Require Lemmas.Memo Lemmas.ObjectsOk Lemmas.ObjectsExpected.
+From BU Require Lemmas.Memo Lemmas.ObjectsOk Lemmas.ObjectsExpected Lemmas.ObjectsHistory.
 Import ListNotations.
 Open Scope string_scope.
 
@@ -199,3 +199,183 @@ Example instance_hypotheses_satisfiable :
                In (snd f) (gen_reads (mname m))).
 Proof. exact (conj own_reads_sound own_gen_covers). Qed.
 Print Assumptions instance_hypotheses_satisfiable.
+
+(* ---------------------------------------------------------------- (3) the shape the history check tests
+
+   A process is a state machine: [step s o] = (next state, result) for a call [o] (with its arguments) in
+   process state [s] -- ALL of it: immutable fields, caches, class attributes, module-level configuration.
+   [exec] folds [step] over a history, [result_at s h o] is the result of [o] after history [h], so
+   [result_at s [] o] is "first thing in a fresh process".  [imm] projects the immutable fields (what the
+   constructor arguments determine), [Inv] is an invariant of reachable states, [okop] the operations
+   histories are made of, [obs] the calls whose results are claimed history-independent.
+   The check (harness/props/C15.py, reflective part) runs histories in worker processes and compares every
+   call with the fresh-process value; a difference is exactly the premise of [failing_history_refutes]. *)
+
+(* TWO HISTORIES.  If steps preserve the invariant and the immutable fields, and results are a function [f] of
+   (immutable fields, arguments) only, then any two histories -- both arbitrary, stated over fold_left -- ending
+   with the same call, on processes whose objects were built from the same constructor arguments, return the
+   same value. *)
+Theorem two_histories_same_result : forall (S Op R : Type) (step : S -> Op -> S * R) (I : Type) (imm : S -> I)
+    (Inv : S -> Prop) (okop obs : Op -> Prop),
+  (forall s o, Inv s -> okop o -> Inv (fst (step s o))) ->
+  (forall s o, Inv s -> okop o -> imm (fst (step s o)) = imm s) ->
+  forall f : I -> Op -> R, (forall s o, Inv s -> obs o -> snd (step s o) = f (imm s) o) ->
+  forall s1 s2 h1 h2 o, Inv s1 -> Inv s2 -> imm s1 = imm s2 -> Forall okop h1 -> Forall okop h2 -> obs o ->
+  snd (step (fold_left (fun s o => fst (step s o)) h1 s1) o) = snd (step (fold_left (fun s o => fst (step s o)) h2 s2) o).
+Proof. exact Lemmas.ObjectsHistory.two_histories. Qed.
+Print Assumptions two_histories_same_result.
+
+(* THE ORACLE: the result at the end of any history is the fresh-process value ... *)
+Theorem fresh_process_oracle : forall (S Op R : Type) (step : S -> Op -> S * R) (I : Type) (imm : S -> I)
+    (Inv : S -> Prop) (okop obs : Op -> Prop),
+  (forall s o, Inv s -> okop o -> Inv (fst (step s o))) ->
+  (forall s o, Inv s -> okop o -> imm (fst (step s o)) = imm s) ->
+  forall f : I -> Op -> R, (forall s o, Inv s -> obs o -> snd (step s o) = f (imm s) o) ->
+  forall s h o, Inv s -> Forall okop h -> obs o -> result_at S Op R step s h o = result_at S Op R step s [] o.
+Proof. exact Lemmas.ObjectsHistory.fresh_oracle. Qed.
+Print Assumptions fresh_process_oracle.
+
+(* ... and so is the result at EVERY position of the history (what a worker reports, call by call) *)
+Theorem every_position_is_fresh : forall (S Op R : Type) (step : S -> Op -> S * R) (I : Type) (imm : S -> I)
+    (Inv : S -> Prop) (okop obs : Op -> Prop),
+  (forall s o, Inv s -> okop o -> Inv (fst (step s o))) ->
+  (forall s o, Inv s -> okop o -> imm (fst (step s o)) = imm s) ->
+  forall f : I -> Op -> R, (forall s o, Inv s -> obs o -> snd (step s o) = f (imm s) o) ->
+  forall s h1 o h2, Inv s -> Forall okop (h1 ++ o :: h2)%list -> obs o ->
+  nth_error (results S Op R step s (h1 ++ o :: h2)%list) (List.length h1) = Some (result_at S Op R step s [] o).
+Proof. exact Lemmas.ObjectsHistory.every_position. Qed.
+Print Assumptions every_position_is_fresh.
+
+(* FAILING-HISTORY CRITERION (the contrapositive the check uses): one history -- the one found, or the shorter
+   one delta debugging re-ran -- after which a call returns something else than first thing in a fresh process
+   refutes EVERY function of (immutable fields, arguments): the library has hidden state that results depend on
+   (or mutates a field it declares immutable). *)
+Theorem failing_history_refutes : forall (S Op R : Type) (step : S -> Op -> S * R) (I : Type) (imm : S -> I)
+    (Inv : S -> Prop) (okop obs : Op -> Prop),
+  (forall s o, Inv s -> okop o -> Inv (fst (step s o))) ->
+  (forall s o, Inv s -> okop o -> imm (fst (step s o)) = imm s) ->
+  forall s h o, Inv s -> Forall okop h -> obs o ->
+  result_at S Op R step s h o <> result_at S Op R step s [] o ->
+  forall f : I -> Op -> R, ~ (forall s o, Inv s -> obs o -> snd (step s o) = f (imm s) o).
+Proof. exact Lemmas.ObjectsHistory.failing_history_refutes. Qed.
+Print Assumptions failing_history_refutes.
+
+(* SNAPSHOT CRITERION: results may depend on hidden state [hid] (what the process-state snapshot canonicalises);
+   [fill] relates a hidden state to one that differs by memoisation-cache fills only, to which results are
+   insensitive.  If the snapshot after the history is the initial one up to fills, the call returns the fresh
+   value; contrapositive: a failing history has changed process-wide state beyond a fill. *)
+Theorem snapshot_criterion : forall (S Op R : Type) (step : S -> Op -> S * R) (I : Type) (imm : S -> I)
+    (Inv : S -> Prop) (okop obs : Op -> Prop) (Hd : Type) (hid : S -> Hd) (fill : Hd -> Hd -> Prop),
+  (forall s o, Inv s -> okop o -> Inv (fst (step s o))) ->
+  (forall s o, Inv s -> okop o -> imm (fst (step s o)) = imm s) ->
+  forall g : I -> Hd -> Op -> R, (forall s o, Inv s -> obs o -> snd (step s o) = g (imm s) (hid s) o) ->
+  (forall i x y o, fill x y -> g i x o = g i y o) ->
+  forall s h o, Inv s -> Forall okop h -> obs o ->
+  (fill (hid s) (hid (exec S Op R step s h)) -> result_at S Op R step s h o = result_at S Op R step s [] o) /\
+  (result_at S Op R step s h o <> result_at S Op R step s [] o -> ~ fill (hid s) (hid (exec S Op R step s h))).
+Proof.
+  intros S Op R step I imm Inv okop obs Hd hid fill HI HM g HG HF s h o Is Hh Ho. split.
+  - exact (Lemmas.ObjectsHistory.snapshot_criterion S Op R step I imm Inv okop obs Hd hid fill HI HM g HG HF s h o Is Hh Ho).
+  - exact (Lemmas.ObjectsHistory.failing_history_changes_state S Op R step I imm Inv okop obs Hd hid fill HI HM g HG HF s h o Is Hh Ho).
+Qed.
+Print Assumptions snapshot_criterion.
+
+(* premises satisfiable (a machine that keeps a hidden "last argument" and never shows it), and the criterion
+   fires on the machine that does show it -- a "last used" cache leaking into results, in miniature *)
+Example machine_premises_satisfiable :
+  (forall (s : nat * nat) (o : nat), True -> True -> True) /\
+  (forall (s : nat * nat) (o : nat), True -> True -> fst (fst (clean_step s o)) = fst s) /\
+  (forall (s : nat * nat) (o : nat), True -> True -> snd (clean_step s o) = (fst s + o)%nat).
+Proof. exact Lemmas.ObjectsHistory.clean_machine_ok. Qed.
+Print Assumptions machine_premises_satisfiable.
+
+Example leaky_machine_has_failing_history :
+  result_at (nat * nat) nat nat leaky_step (7, 0)%nat [5%nat] 1%nat <> result_at (nat * nat) nat nat leaky_step (7, 0)%nat [] 1%nat /\
+  forall f : nat -> nat -> nat, ~ (forall (s : nat * nat) (o : nat), True -> True -> snd (leaky_step s o) = f (fst s) o).
+Proof. exact Lemmas.ObjectsHistory.leaky_machine_refuted. Qed.
+Print Assumptions leaky_machine_has_failing_history.
+
+(* THE MEMO MODEL IS SUCH A MACHINE ([run] is the fold of [step]): two arbitrary histories of calls on two
+   processes whose objects hold the same field values, caches in any consistent state, same result of every
+   good method. *)
+Theorem memo_model_two_histories : forall (F : Type) (feqb : F -> F -> bool) (M : Type) (meqb : M -> M -> bool) (V : Type)
+    (sem : M -> (F -> V) -> V) (is_cached : M -> bool),
+  (forall a b, feqb a b = true <-> a = b) -> (forall a b, meqb a b = true <-> a = b) ->
+  forall (reads : M -> list F),
+  (forall m s1 s2, (forall f, In f (reads m) -> s1 f = s2 f) -> sem m s1 = sem m s2) ->
+  forall (writable : F -> Prop) s1 s2 h1 h2 m,
+  Lemmas.Memo.cache_valid F M meqb V sem is_cached reads writable s1 ->
+  Lemmas.Memo.cache_valid F M meqb V sem is_cached reads writable s2 ->
+  fst s1 = fst s2 -> Forall (Lemmas.Memo.is_call F M V) h1 -> Forall (Lemmas.Memo.is_call F M V) h2 ->
+  Lemmas.Memo.good F M is_cached reads writable m ->
+  result_after F feqb M meqb V sem is_cached s1 h1 m = result_after F feqb M meqb V sem is_cached s2 h2 m.
+Proof. exact Lemmas.ObjectsHistory.memo_two_histories. Qed.
+Print Assumptions memo_model_two_histories.
+
+(* ON THE GENERATED OBJECT TABLE (Gen/Objects.v: memoised methods, their read-sets, the fields written after
+   construction): any two histories of calls -- of any methods of any objects, any order, any repetitions -- on
+   two processes whose objects were built from the same arguments end with the same result of every method that
+   is not a listed offender (today: none); with conversions and toggle flips in the histories, as soon as the
+   fields the method reads hold the same logical values. *)
+Theorem two_histories_objects : forall (V : Type) (sem : mkey -> (fkey -> V) -> V) (reads : mkey -> list fkey),
+  (forall m s1 s2, (forall f, In f (reads m) -> s1 f = s2 f) -> sem m s1 = sem m s2) ->
+  (forall m f, is_cached_key m = true -> In f (reads m) -> In (snd f) mutable_fields ->
+               In (snd f) (gen_reads (mname m))) ->
+  forall s1 s2 h1 h2 m,
+  Lemmas.Memo.cache_valid fkey mkey mkeyb V sem is_cached_key reads writable_key s1 ->
+  Lemmas.Memo.cache_valid fkey mkey mkeyb V sem is_cached_key reads writable_key s2 ->
+  fst s1 = fst s2 -> Forall (Lemmas.Memo.is_call fkey mkey V) h1 -> Forall (Lemmas.Memo.is_call fkey mkey V) h2 ->
+  smem (mname m) (map fst expected_offenders) = false ->
+  result_after fkey fkeyb mkey mkeyb V sem is_cached_key s1 h1 m =
+  result_after fkey fkeyb mkey mkeyb V sem is_cached_key s2 h2 m.
+Proof. exact Lemmas.ObjectsHistory.two_histories_objects. Qed.
+Print Assumptions two_histories_objects.
+
+Theorem two_histories_objects_with_mutators : forall (V : Type) (sem : mkey -> (fkey -> V) -> V) (reads : mkey -> list fkey),
+  (forall m s1 s2, (forall f, In f (reads m) -> s1 f = s2 f) -> sem m s1 = sem m s2) ->
+  (forall m f, is_cached_key m = true -> In f (reads m) -> In (snd f) mutable_fields ->
+               In (snd f) (gen_reads (mname m))) ->
+  forall s1 s2 h1 h2 m,
+  Lemmas.Memo.cache_valid fkey mkey mkeyb V sem is_cached_key reads writable_key s1 ->
+  Lemmas.Memo.cache_valid fkey mkey mkeyb V sem is_cached_key reads writable_key s2 ->
+  Forall (Lemmas.Memo.write_ok fkey mkey V writable_key) h1 -> Forall (Lemmas.Memo.write_ok fkey mkey V writable_key) h2 ->
+  smem (mname m) (map fst expected_offenders) = false ->
+  (forall f, In f (reads m) -> logical fkey fkeyb mkey V (fst s1) h1 f = logical fkey fkeyb mkey V (fst s2) h2 f) ->
+  result_after fkey fkeyb mkey mkeyb V sem is_cached_key s1 h1 m =
+  result_after fkey fkeyb mkey mkeyb V sem is_cached_key s2 h2 m.
+Proof. exact Lemmas.ObjectsHistory.two_histories_objects_writes. Qed.
+Print Assumptions two_histories_objects_with_mutators.
+
+(* the failing-history criterion on the table: under the two trusted hypotheses no history of calls makes a
+   non-offending method return something else than on the fresh process -- so a failing history found by the check
+   on such a method means the table (hence the static analysis) misses state *)
+Theorem no_failing_history_objects : forall (V : Type) (sem : mkey -> (fkey -> V) -> V) (reads : mkey -> list fkey),
+  (forall m s1 s2, (forall f, In f (reads m) -> s1 f = s2 f) -> sem m s1 = sem m s2) ->
+  (forall m f, is_cached_key m = true -> In f (reads m) -> In (snd f) mutable_fields ->
+               In (snd f) (gen_reads (mname m))) ->
+  forall s h m,
+  Lemmas.Memo.cache_valid fkey mkey mkeyb V sem is_cached_key reads writable_key s ->
+  Forall (Lemmas.Memo.is_call fkey mkey V) h ->
+  smem (mname m) (map fst expected_offenders) = false ->
+  result_after fkey fkeyb mkey mkeyb V sem is_cached_key s h m =
+  result_after fkey fkeyb mkey mkeyb V sem is_cached_key s [] m.
+Proof. exact Lemmas.ObjectsHistory.no_failing_history_objects. Qed.
+Print Assumptions no_failing_history_objects.
+
+(* CHECK-THEN-FILL IN PLACE (what the schedule stream of the check looks for: threads released together in a
+   fresh interpreter, each doing a first use).  In the test/compute/store protocol of [interleaving_confluent]
+   the value is built privately and published by one store, and every schedule is right.  If instead the shared
+   table is filled in place behind an "is it empty?" test, there is a schedule in which a thread looks up a key
+   that IS in the source and does not find it; one thread alone, or one after the other, always finds it. *)
+Example nonatomic_fill_race_witness :
+  (let c := frun Lemmas.ObjectsHistory.two_words 2 2 [false; false; true; true] in
+   f1 c = FDone None /\ tfind 2 Lemmas.ObjectsHistory.two_words = Some 20%nat) /\
+  (let c := frun Lemmas.ObjectsHistory.two_words 2 2 [false; false; false; false; true; true] in
+   f0 c = FDone (Some 20%nat) /\ f1 c = FDone (Some 20%nat)) /\
+  (forall k, In k (map fst Lemmas.ObjectsHistory.two_words) ->
+   f0 (frun Lemmas.ObjectsHistory.two_words k k [false; false; false; false]) = FDone (tfind k Lemmas.ObjectsHistory.two_words)).
+Proof.
+  exact (conj Lemmas.ObjectsHistory.fill_race_loses
+          (conj Lemmas.ObjectsHistory.fill_sequential_ok Lemmas.ObjectsHistory.fill_single_thread_ok)).
+Qed.
+Print Assumptions nonatomic_fill_race_witness.
